@@ -21,6 +21,7 @@ CONSTANTS N,              \* number of participants (ids 1..N)
           VerifyShare,    \* FALSE: contributions are accepted without checking share against vector
           CheckVVecLen,   \* FALSE: vectors of the wrong length are accepted (pre-fix)
           CommitNeedsAll, \* FALSE: commit proceeds without every participant's contribution
+          ConfirmAll,     \* FALSE: only the first T participants' confirmation signatures are verified by the initiator
           ThresholdMode   \* "gtHalf" (shipped: n/2 < t <= n) | "geHalf" | "any"
 
 P == 1 .. N
@@ -46,9 +47,11 @@ VARIABLES phase,     \* "check" "prepare" "execute" "commit" "ok" "failed"
           crashed,   \* P -> BOOLEAN
           committed, \* set of participants whose commit has been handled
           commitErr, \* some commit failed
+          byz,       \* participants whose commit reply carries a confirmation signature NOT made with a share consistent with
+                     \* the composite key (a faulty participant: everything it signs later is made with that other key too)
           nfaults,
           fault      \* the faults applied so far (set of names), for the properties
-vars == <<phase, k, sess, got, badlen, acct, crashed, committed, commitErr, nfaults, fault>>
+vars == <<phase, k, sess, got, badlen, acct, crashed, committed, commitErr, byz, nfaults, fault>>
 
 ThresholdOK == CASE ThresholdMode = "gtHalf" -> 2 * T > N /\ T <= N
                  [] ThresholdMode = "geHalf" -> 2 * T >= N /\ T <= N
@@ -57,11 +60,11 @@ ThresholdOK == CASE ThresholdMode = "gtHalf" -> 2 * T > N /\ T <= N
 Init == /\ phase = "check" /\ k = 1
         /\ sess = [p \in P |-> FALSE] /\ got = [p \in P |-> {}] /\ badlen = [p \in P |-> FALSE]
         /\ acct = [p \in P |-> FALSE] /\ crashed = [p \in P |-> FALSE]
-        /\ committed = {} /\ commitErr = FALSE /\ nfaults = 0 /\ fault = {}
+        /\ committed = {} /\ commitErr = FALSE /\ byz = {} /\ nfaults = 0 /\ fault = {}
 
 Check == /\ phase = "check"
          /\ phase' = IF ThresholdOK THEN "prepare" ELSE "failed"
-         /\ UNCHANGED <<k, sess, got, badlen, acct, crashed, committed, commitErr, nfaults, fault>>
+         /\ UNCHANGED <<k, sess, got, badlen, acct, crashed, committed, commitErr, byz, nfaults, fault>>
 
 CanFault == nfaults < MaxFaults
 Fail == phase' = "failed"
@@ -76,7 +79,7 @@ Prepare == /\ phase = "prepare"
                       /\ sess' = IF f = "errreply" THEN [sess EXCEPT ![k] = TRUE] ELSE sess
                       /\ got' = IF f = "errreply" THEN [got EXCEPT ![k] = {k}] ELSE got
                  /\ nfaults' = nfaults + 1 /\ Fail /\ UNCHANGED k
-           /\ UNCHANGED <<badlen, acct, crashed, committed, commitErr>>
+           /\ UNCHANGED <<badlen, acct, crashed, committed, commitErr, byz>>
 
 \* acceptance of a contribution c by the receiving side
 Accepts(c) == (VerifyShare => c.consistent) /\ (CheckVVecLen => c.dlen = 0)
@@ -106,7 +109,7 @@ Execute ==
           /\ nfaults' = nfaults + 1
        \/ /\ CanFault /\ \E f \in MsgFaults : fault' = fault \cup {"execute-" \o f}
           /\ nfaults' = nfaults + 1 /\ Fail /\ UNCHANGED <<k, got, badlen>>
-    /\ UNCHANGED <<sess, acct, crashed, committed, commitErr>>
+    /\ UNCHANGED <<sess, acct, crashed, committed, commitErr, byz>>
 
 \* commits are sent in parallel: handled in any order; the client outcome is known when all have returned
 Commit(p) ==
@@ -117,11 +120,16 @@ Commit(p) ==
          ELSE IF badlen[p]
                 THEN crashed' = [crashed EXCEPT ![p] = TRUE] /\ commitErr' = TRUE /\ UNCHANGED <<acct, sess>>
                 ELSE acct' = [acct EXCEPT ![p] = TRUE] /\ sess' = [sess EXCEPT ![p] = FALSE] /\ UNCHANGED <<crashed, commitErr>>
-    /\ UNCHANGED <<phase, k, got, badlen, nfaults, fault>>
+    /\ \/ UNCHANGED <<byz, nfaults, fault>>
+       \/ /\ CanFault /\ byz' = byz \cup {p} /\ nfaults' = nfaults + 1 /\ fault' = fault \cup {"commit-byzsig"}
+    /\ UNCHANGED <<phase, k, got, badlen>>
 
+\* the initiator recovers a composite signature from the confirmation signatures: every window of T consecutive participants
+\* (ConfirmAll) - so every participant's signature takes part - or, in the broken design, the first window only
+Verified == IF ConfirmAll THEN P ELSE 1 .. T
 Finish == /\ phase = "commit" /\ committed = P
-          /\ phase' = IF commitErr THEN "failed" ELSE "ok"
-          /\ UNCHANGED <<k, sess, got, badlen, acct, crashed, committed, commitErr, nfaults, fault>>
+          /\ phase' = IF commitErr \/ (byz \cap Verified # {}) THEN "failed" ELSE "ok"
+          /\ UNCHANGED <<k, sess, got, badlen, acct, crashed, committed, commitErr, byz, nfaults, fault>>
 
 Done == phase \in {"ok", "failed"} /\ UNCHANGED vars
 Next == Check \/ Prepare \/ Execute \/ (\E p \in P : Commit(p)) \/ Finish \/ Done
@@ -129,9 +137,11 @@ Spec == Init /\ [][Next]_vars
 
 (* ---- properties ---- *)
 \* C12: success => everybody holds the account, nobody crashed, threshold rule respected
-AgreementOnSuccess == phase = "ok" => (\A p \in P : acct[p] /\ ~crashed[p] /\ ~badlen[p]) /\ 2 * T > N /\ T <= N
+AgreementOnSuccess == phase = "ok" => (\A p \in P : acct[p] /\ ~crashed[p] /\ ~badlen[p]) /\ 2 * T > N /\ T <= N /\ byz = {}
 \* C13: any prepare / execute / contribution fault of the listed kinds => error, no account anywhere, no crash
-FaultNoAccount == (fault # {}) => (phase # "ok" /\ \A p \in P : ~acct[p] /\ ~crashed[p])
+\* (a faulty commit reply comes after the accounts have been stored: it must fail the generation, it cannot undo them)
+FaultNoAccount == /\ (fault # {}) => phase # "ok"
+                  /\ (fault \ {"commit-byzsig"} # {}) => \A p \in P : ~acct[p] /\ ~crashed[p]
 \* a refused threshold creates nothing
 RefusedCreatesNothing == (phase = "failed" /\ ~ThresholdOK) => \A p \in P : ~acct[p] /\ ~sess[p]
 =============================================================================
